@@ -109,7 +109,7 @@ func (w *World) Observe() *Obs {
 	} else {
 		o.SyncedTo = h
 	}
-	for _, r := range w.Roles() {
+	for _, r := range w.ReadyRoles() {
 		o.Wallets = append(o.Wallets, w.ObserveWallet(r))
 	}
 	w.I.W.UseWallet(w.Wallets["A"].ID)
